@@ -62,7 +62,10 @@ Why(e) ==
         ELSE "ok"
     ELSE IF e.op = "end" THEN
         IF e.a[1] # 1 THEN "machinery:body-did-not-finish"
-        ELSE IF \E k \in 1..Len(pend) : ~pend[k].woke THEN "PlayNeverWoke" ELSE "ok"
+        ELSE IF \E k \in 1..Len(pend) : ~pend[k].woke THEN "PlayNeverWoke"
+        \* beats read from another thread = that thread's logical seconds through the same affine map
+        ELSE IF ~(e.r[2][2] = 1 /\ Ex(e.r[1], S2B(c, e.r[2][1])) /\ Ex(e.r[3], S2B(c, e.r[2][1]))) THEN "AffineMapFromOutside"
+        ELSE "ok"
     ELSE IF ~ObsTime(e, c) \/ ~ObsMeter(e, c) THEN "QueryChangedState"
     ELSE IF e.op = "b2s" THEN
         IF ~Ex(e.r[2], e.a[1]) THEN "RoundTrip"
